@@ -79,6 +79,11 @@ func main() {
 			os.Exit(2)
 		}
 		debugErrSites(p)
+	case "check-overlay":
+		if len(os.Args) < 4 {
+			usage()
+		}
+		os.Exit(runCheckOverlay(os.Args[2], os.Args[3]))
 	case "selftest":
 		os.Exit(runSelfTest(os.Args[2:]))
 	default:
@@ -92,10 +97,10 @@ func runCheck(id, tier string) (code int) {
 		fmt.Fprintln(os.Stderr, "unknown property", id)
 		return 2
 	}
+	// both tiers analyse the four packages the properties are anchored in; the thorough tier adds the
+	// checker self-validation (stubs.go).  The service/tool packages outside that set have their own
+	// dispatchers and error conventions and were never part of the confirmed rule tables.
 	pats := quickPatterns
-	if tier == "thorough" {
-		pats = append(append([]string{}, quickPatterns...), thoroughExtra...)
-	}
 	p, err := Load(pats, nil)
 	if err != nil {
 		fmt.Fprintln(os.Stderr, "INFRASTRUCTURE FAILURE:", err)
